@@ -129,27 +129,37 @@ def reindex (base : List AddrRange) (k : Int) : D (List AddrRange) :=
     | .ok a => pure a
     | .error _ => throw (.range "Address range base not set")
 
+/-- the ranges of an endpoint description, built once (what every element of an array starts from) -/
+def baseRanges (ep : EpDesc) : D (List AddrRange) :=
+  ep.ranges.mapM fun r =>
+    match mkRange r with
+    | .ok a => pure a
+    | .error _ => throw (.range "invalid range")
+
+/-- the ranges of the network interface at array position `arrIdx` of endpoint `ep`: element (x, y) of an [m, n]
+    array takes slot x·n + y of every based range; single endpoints and pure managers keep the ranges as written -/
+def niRanges (ep : EpDesc) (arrIdx : Option (List Nat)) (base : List AddrRange) : D (List AddrRange) :=
+  match ep.array, arrIdx with
+  | none, _ => pure base
+  | some [_], some [i] => if ep.isSbr then reindex base (i : Int) else pure base
+  | some [_, n], some [x, y] => if ep.isSbr then reindex base ((x * n + y : Nat) : Int) else pure base
+  | _, _ => throw (.schema "Invalid endpoint array description")
+
+def compileNi (d : Desc) (g : Graph) (ids : Ids) (nd : Node) : D NI := do
+  let ep := d.endpoints.getD nd.descIdx default
+  let base ← baseRanges ep
+  let some id := ids.idOf nd.name | throw (.internal s!"KeyError id of {nd.name}")
+  let some uid := ids.uidOf nd.name | throw (.internal s!"KeyError uid of {nd.name}")
+  let ranges ← niRanges ep nd.arrIdx base
+  let some mg := ((g.edgesFrom nd.name).filter (·.kind == .link)).head?
+    | throw (.unconnected s!"{nd.name} has no link")
+  let some sb := ((g.edgesTo nd.name).filter (·.kind == .link)).head?
+    | throw (.unconnected s!"{nd.name} has no link")
+  pure { name := nd.name, epIdx := nd.descIdx, arrIdx := nd.arrIdx, id, uid, ranges,
+         mgrLink := linkOf g mg, sbrLink := linkOf g sb }
+
 def compileNis (d : Desc) (g : Graph) (ids : Ids) : D (List NI) :=
-  (g.nodesOfKind .ni).mapM fun nd => do
-    let ep := d.endpoints.getD nd.descIdx default
-    let base ← ep.ranges.mapM fun r =>
-      match mkRange r with
-      | .ok a => pure a
-      | .error _ => throw (.range "invalid range")
-    let some id := ids.idOf nd.name | throw (.internal s!"KeyError id of {nd.name}")
-    let some uid := ids.uidOf nd.name | throw (.internal s!"KeyError uid of {nd.name}")
-    let ranges ←
-      match ep.array, nd.arrIdx with
-      | none, _ => pure base
-      | some [_], some [i] => if ep.isSbr then reindex base (i : Int) else pure base
-      | some [_, n], some [x, y] => if ep.isSbr then reindex base ((x * n + y : Nat) : Int) else pure base
-      | _, _ => throw (.schema "Invalid endpoint array description")
-    let some mg := ((g.edgesFrom nd.name).filter (·.kind == .link)).head?
-      | throw (.unconnected s!"{nd.name} has no link")
-    let some sb := ((g.edgesTo nd.name).filter (·.kind == .link)).head?
-      | throw (.unconnected s!"{nd.name} has no link")
-    pure { name := nd.name, epIdx := nd.descIdx, arrIdx := nd.arrIdx, id, uid, ranges,
-           mgrLink := linkOf g mg, sbrLink := linkOf g sb }
+  (g.nodesOfKind .ni).mapM (compileNi d g ids)
 
 structure Router where
   name : String
